@@ -647,4 +647,5 @@ func runC05(c *fw.Ctx) {
 	c05Random(c)
 	c05Synthetic(c)
 	c05Malformed(c)
+	c05E2E(c)
 }
